@@ -1848,8 +1848,9 @@ theorem reloadGlyph_bound {s : State} {ln gn : String} {l : MLayer} {f : File} (
           simp only; rw [AL.get?_set_self]; exact congrArg some h2⟩
   | some g =>
     simp only [hgs]
+    have hin : gn ∈ glifNames s.disk ln := mem_glifNames_of_glifOf hf
     unfold gsRead
-    simp only [Bool.not_true, Bool.false_eq_true, if_false, hv, hf]
+    simp only [hin, if_true, Bool.not_true, Bool.false_eq_true, if_false, hv, hf]
     exact ⟨_, _, rfl, rfl, by unfold getLayer setLayer; exact AL.get?_set_self _ _ _, AL.get?_set_self _ _ _⟩
 
 theorem isModifiedGlyph_of_stamp {d : Disk} {ln gn : String} {f : File} {v : Blob} {dirty : Bool}
